@@ -832,11 +832,41 @@ func (o *selOp) try() bool {
 	return false
 }
 
+// SelResult carries the value received by a rewritten select whose chosen case binds it
+type SelResult struct {
+	recv reflect.Value
+	ok   bool
+}
+
+func NewSel() *SelResult { return &SelResult{} }
+
+// Got returns the value the select received (the channel argument only fixes the type)
+//
+//go:norace
+func Got[T any](r *SelResult, _ <-chan T) T {
+	v, _ := Got2[T](r, nil)
+	return v
+}
+
+//go:norace
+func Got2[T any](r *SelResult, _ <-chan T) (T, bool) {
+	var zero T
+	if !r.ok || !r.recv.IsValid() {
+		return zero, r.ok
+	}
+	return r.recv.Interface().(T), true
+}
+
 // Select is what a rewritten select statement calls. It returns the index of the chosen case or
 // -1 for the default clause.
 //
 //go:norace
-func Select(hasDefault bool, cases ...SelCase) int {
+func Select(hasDefault bool, cases ...SelCase) int { return SelectR(nil, hasDefault, cases...) }
+
+// SelectR is Select for a select statement with a case that binds the received value
+//
+//go:norace
+func SelectR(r *SelResult, hasDefault bool, cases ...SelCase) int {
 	o := &selOp{hasDefault: hasDefault}
 	for _, c := range cases {
 		o.cases = append(o.cases, c.c)
@@ -857,9 +887,12 @@ func Select(hasDefault bool, cases ...SelCase) int {
 		if hasDefault {
 			rc = append(rc, reflect.SelectCase{Dir: reflect.SelectDefault})
 		}
-		idx, _, _ := reflect.Select(rc)
+		idx, v, ok := reflect.Select(rc)
 		if hasDefault && idx == len(rc)-1 {
 			return -1
+		}
+		if r != nil {
+			r.recv, r.ok = v, ok
 		}
 		return idx
 	}
@@ -869,6 +902,9 @@ func Select(hasDefault bool, cases ...SelCase) int {
 		// atomically with the step it is part of (see DESIGN.md 2.2).
 		if o.try() {
 			s.touchChan(t, o.cases[o.chosen].ch)
+			if r != nil {
+				r.recv, r.ok = o.recv, o.recvOK
+			}
 			return o.chosen
 		}
 		return -1
@@ -878,6 +914,9 @@ func Select(hasDefault bool, cases ...SelCase) int {
 		panic("vsched: select granted but no case ready")
 	}
 	s.touchChan(t, o.cases[o.chosen].ch)
+	if r != nil {
+		r.recv, r.ok = o.recv, o.recvOK
+	}
 	return o.chosen
 }
 
@@ -888,16 +927,25 @@ func (s *Sched) touchChan(t *Thread, ch reflect.Value) {
 	*h = mix(*h, t.H)
 }
 
-// Recv is what a rewritten receive statement calls
+// Recv is what a rewritten receive calls
 //
 //go:norace
 func Recv[T any](ch <-chan T) T {
+	v, _ := Recv2(ch)
+	return v
+}
+
+// Recv2 is what a rewritten `v, ok := <-ch` calls
+//
+//go:norace
+func Recv2[T any](ch <-chan T) (T, bool) {
 	s := Active()
 	if s == nil {
 		if Aborting() {
 			runtime.Goexit()
 		}
-		return <-ch
+		v, ok := <-ch
+		return v, ok
 	}
 	o := &selOp{cases: []selCase{{dir: reflect.SelectRecv, ch: reflect.ValueOf(ch)}}}
 	t := s.running
@@ -908,9 +956,9 @@ func Recv[T any](ch <-chan T) T {
 	s.touchChan(t, o.cases[0].ch)
 	var zero T
 	if !o.recvOK {
-		return zero
+		return zero, false
 	}
-	return o.recv.Interface().(T)
+	return o.recv.Interface().(T), true
 }
 
 // Send is what a rewritten send statement calls
